@@ -419,10 +419,12 @@ fn main() {
                 emit(&rec, &mut s);
                 tok.write_all(s.as_bytes()).unwrap();
                 // the side file for the orchestrator: everything except the big trees
+                // cases of the scope stream keep the trees: the binding analysis (C06) reads them
+                let keep_json = matches!(case.get("keep_json"), Some(J::Bool(true)));
                 if let J::Obj(m) = rec {
                     let small: Vec<(String, J)> = m
                         .into_iter()
-                        .filter(|(k, _)| k != "input" && k != "output" && k != "output2")
+                        .filter(|(k, _)| keep_json && k != "output2" || k != "input" && k != "output" && k != "output2")
                         .map(|(k, v)| {
                             if k == "alt" {
                                 if let J::Obj(a) = v {
